@@ -164,6 +164,7 @@ theorem core_onRST (s : State) (sid : Nat) : core (s.onRST sid) = core s := by
   ssplits
   all_goals first
     | rfl
+    | exact core_put ..
     | exact (core_put ..).trans (core_updStream _ _ _ (fun _ => rfl))
 
 theorem core_finishStream (s : State) (sid : Nat) : core (s.finishStream sid).1 = core s := by
